@@ -266,12 +266,57 @@ def shard_sweep(idx):
     return acc
 
 
+def shard_edge_steps(seed, count):
+    """through emulate_cycle(): instruction fetch and data accesses at the last bytes of a device (incl. a 32-bit fetch with only two
+    bytes left and accesses running past the end) never resize a device, never touch another device, never raise a host error"""
+    import random
+    from vf import gen, e1
+    acc = Acc()
+    rng = random.Random(seed)
+    for _ in range(count):
+        thumb = rng.random() < 0.5
+        dev = (0x8000, rng.choice((0x42, 0x44, 0x46, 0x41, 0x43, 0x48)))          # code device; code placed so that it ends at / straddles the end
+        data = (0x9000, rng.choice((5, 6, 7, 8, 9, 13)))
+        off = dev[1] - rng.choice((2, 4, 2, 6, 1, 3))
+        pc = (dev[0] + off) & (~1 if thumb else ~3)
+        # LDR/STR/LDRD/LDM with the base at the last bytes of the data device
+        base = data[0] + data[1] - rng.choice((1, 2, 3, 4, 5, 8))
+        if thumb:
+            code = rng.choice((b'\x08\x68', b'\x08\x60', b'\x08\x88', b'\xd1\xe9\x00\x23', b'\x91\xe8\x0c\x00', b'\xc1\xe9\x00\x23'))      # LDR/STR/LDRH r0,[r1]; LDRD/LDM/STRD
+        else:
+            code = e1.enc_arm(rng.choice((0xE5910000, 0xE5810000, 0xE1C120D0, 0xE891000C, 0xE1C120F0, 0xE1D100B0)))
+        case = {'cfg': gen.CONFIGS[rng.choice(('v6', 'v7'))], 'hooked': False, 'mems': [list(dev), [0, 0x40], list(data)],
+                'state': {'R.PC': pc, 'cpsr': gen.cpsr_value(m=0b10011, t=1 if thumb else 0, e=rng.getrandbits(1)), 'sctlr': rng.choice((0, 1 << 22, 2)),
+                          'R.R1usr': base, 'R.R2usr': rng.getrandbits(32), 'R.R3usr': rng.getrandbits(32), 'R.R0usr': rng.getrandbits(32)},
+                'poke': [[pc, code.hex()]], 'steps': 2}
+        cpu = e1.build(case)
+        pre = target.snapshot(cpu)
+        bad = None
+        for _s in range(2):
+            e = target.step_budget(cpu)
+            if e is not None and not target.escape_ok(e):
+                bad = 'host error %s: %s' % (type(e).__name__, e)
+                break
+        post = target.snapshot(cpu)
+        if not bad:
+            for i, (b_, n_) in enumerate(case['mems']):
+                if len(post['mem%d' % i]) != n_:
+                    bad = 'resized: device %d now %d bytes (was %d)' % (i, len(post['mem%d' % i]), n_)
+            if not bad and post['mem1'] != pre['mem1'] and (post['cpsr'] & 31) == (pre['cpsr'] & 31):
+                bad = 'device 1 (vectors) changed by an access aimed at the end of another device'
+        acc.case(True, ('edge', thumb, dev, data, off, base, code), cls='edge-step', sample={'thumb': thumb, 'code_device': dev, 'pc': '%#x' % pc,
+                                                                                              'data_device': data, 'base': '%#x' % base, 'code': code.hex()})
+        if bad:
+            acc.violation('C16:edge-step:' + bucket_of(bad), {'edge_case': case}, bad)
+    return acc
+
+
 def run(ctx):
     ctx.rule = ('Hypothesis RuleBasedStateMachine: layout of 1-5 RAM devices (sizes 1..70 incl. odd, adjacent/gapped/overlapping, up to '
                 'the last bytes below 2^32) then <=N reads/writes of size 1/2/4/8 at addresses drawn from device boundaries +-9, '
                 'unmapped gaps, >2^32 and random; oracle = per-device byte arrays + first-match rule, checked after every step '
                 '(device lengths, every byte, read values, no host exception). Plus a deterministic sweep of every address around '
-                'every boundary of 8 fixed layouts. Non-trivial history: contains an access within 8 bytes of a device end or >=2 '
+                'every boundary of 8 fixed layouts, and emulate_cycle() steps whose fetch / data access lies at the last bytes of a device. Non-trivial history: contains an access within 8 bytes of a device end or >=2 '
                 'touching/overlapping devices; distinct = distinct (layout, op sequence).')
     ctx.technique = 'stateful model-based property testing (Hypothesis rule-based machine) against an in-memory byte model'
     ctx.assumptions = ['RAM devices only (the only MemoryType shipped)', 'values written are in range for their size (all callers mask)']
@@ -279,6 +324,7 @@ def run(ctx):
     steps = ctx.n(40, 60)
     tasks = [(shard_machine, (ctx.shard_seed(i), ex, steps, not ctx.quick)) for i in range(16)]
     tasks += [(shard_sweep, (i,)) for i in range(8)]
+    tasks += [(shard_edge_steps, (ctx.shard_seed(50 + i), ctx.n(400, 8000))) for i in range(4)]
     ctx.pmap(_dispatch, tasks)
 
 
@@ -287,5 +333,16 @@ def _dispatch(fn, args):
 
 
 def replay(case, bucket=None):
+    if 'edge_case' in case:
+        from vf import e1
+        cpu = e1.build(case['edge_case'])
+        for _ in range(2):
+            e = target.step_budget(cpu)
+            if e is not None and not target.escape_ok(e):
+                return ['host error ' + type(e).__name__]
+        for i, (b_, n_) in enumerate(case['edge_case']['mems']):
+            if len(cpu.mem.memories[i].mem.memory_array) != n_:
+                return ['resized']
+        return []
     msg = run_case(case)
     return [msg] if msg else []
